@@ -18,6 +18,9 @@ type Var struct {
 func (v *Var) UnmarshalYAML(node *yaml.Node) error {
 	switch node.Kind {
 	case yaml.MappingNode:
+		if len(node.Content) == 0 {
+			return errors.NewTaskfileDecodeError(nil, node).WithMessage(`an empty map is not a valid variable. Try "sh", "ref", "map" or using a scalar value`)
+		}
 		key := node.Content[0].Value
 		switch key {
 		case "sh", "ref", "map":
